@@ -1,0 +1,64 @@
+//! Verification hooks for property C36 (compiled only with `--cfg libp2p_verif`).
+//!
+//! Child module of `behaviour`: re-exports the subscription types that appear in the public
+//! `TopicSubscriptionFilter` trait, and thin `pub` wrappers that only *call* existing private
+//! functions of [`Behaviour`] (the entry points the crate's own tests use).
+
+use libp2p_core::{ConnectedPoint, Multiaddr};
+use libp2p_identity::PeerId;
+use libp2p_swarm::{
+    ConnectionId, NetworkBehaviour,
+    behaviour::{ConnectionEstablished, FromSwarm},
+};
+
+use super::Behaviour;
+pub use crate::types::{Subscription, SubscriptionAction, SubscriptionOpts};
+use crate::{
+    handler::HandlerEvent, subscription_filter::TopicSubscriptionFilter, topic::TopicHash,
+    transform::DataTransform, types::PeerKind,
+};
+
+/// Registers a connected (inbound, gossipsub v1.1) peer through the `NetworkBehaviour` entry points.
+pub fn add_peer<D, F>(gs: &mut Behaviour<D, F>, peer: PeerId, connection: usize)
+where
+    D: DataTransform + Send + 'static,
+    F: TopicSubscriptionFilter + Send + 'static,
+{
+    let connection_id = ConnectionId::new_unchecked(connection);
+    let address = Multiaddr::empty();
+    let _ = gs.handle_established_inbound_connection(connection_id, peer, &address, &address);
+    let endpoint = ConnectedPoint::Listener {
+        local_addr: Multiaddr::empty(),
+        send_back_addr: address,
+    };
+    gs.on_swarm_event(FromSwarm::ConnectionEstablished(ConnectionEstablished {
+        peer_id: peer,
+        connection_id,
+        endpoint: &endpoint,
+        failed_addresses: &[],
+        other_established: 0,
+    }));
+    gs.on_connection_handler_event(
+        peer,
+        connection_id,
+        HandlerEvent::PeerKind(PeerKind::Gossipsubv1_1),
+    );
+}
+
+/// Delivers the subscriptions of one RPC from `peer` (private `handle_received_subscriptions`).
+pub fn recv_subscriptions<D, F>(gs: &mut Behaviour<D, F>, peer: &PeerId, subscriptions: &[Subscription])
+where
+    D: DataTransform + Send + 'static,
+    F: TopicSubscriptionFilter + Send + 'static,
+{
+    gs.handle_received_subscriptions(subscriptions, peer)
+}
+
+/// Delivers a GRAFT from `peer` (private `handle_graft`).
+pub fn recv_graft<D, F>(gs: &mut Behaviour<D, F>, peer: &PeerId, topics: Vec<TopicHash>)
+where
+    D: DataTransform + Send + 'static,
+    F: TopicSubscriptionFilter + Send + 'static,
+{
+    gs.handle_graft(peer, topics)
+}
